@@ -18,8 +18,40 @@ BELOW_GLYPH = ("layer.lib", "glyph.lib", "contour", "component", "anchor", "guid
 # generation of histories
 # ---------------------------------------------------------------------------------------
 
-def gen_ops(rng, spec, nops, save_modes, p_save=0.12, structures=("package",)):
-    """ops over a *copy* of spec that tracks what exists, so most ops are meaningful"""
+def gen_sub_edit(rng, ln, present):
+    """an edit of ONE object below a glyph (or of the glyph's image / lib) through that object's own API; indices are
+    taken modulo what the glyph holds when the op runs (no-op on a glyph that holds nothing of the kind)"""
+    gn = rng.choice(present) if present and rng.random() < 0.9 else rng.choice(fg.GLYPH_NAMES)
+    kind = rng.choice(["contourmove", "addpoint", "compmove", "compbase", "anchorset", "anchorset", "guideset", "imgcolor",
+                       "imgset", "libkey"])
+    i = rng.randrange(4)
+    if kind == "contourmove":
+        v = [i, rng.randint(-3, 3), rng.randint(-3, 3)]
+    elif kind == "addpoint":
+        v = [i, rng.randint(0, 300), rng.randint(0, 300)]
+    elif kind == "compmove":
+        v = [i, rng.choice([0, 0, 1, -2, 5]), rng.choice([0, 3, -1])]
+    elif kind == "compbase":
+        v = [i, rng.choice(fg.BASES)]
+    elif kind == "anchorset":
+        f = rng.choice(["x", "y", "name"])
+        v = [i, f, rng.choice(["top", "bottom", "mid", None]) if f == "name" else rng.choice([0, 100, 250, 500])]
+    elif kind == "guideset":
+        f = rng.choice(["name", "color"])
+        v = [i, f, rng.choice([None, "gl", "g2"]) if f == "name" else rng.choice([None] + fg.COLORS)]
+    elif kind == "imgcolor":
+        v = rng.choice([None] + fg.COLORS)
+    elif kind == "imgset":
+        v = None if rng.random() < 0.3 else {"fileName": rng.choice(fg.IMAGE_NAMES), "xOffset": rng.randint(0, 3),
+                                              "color": rng.choice([None, fg.COLORS[2]])}
+    else:
+        v = ["com.a.k1", rng.choice([None, 7, "v", [1, 2]])]
+    return ["gfield", ln, gn, kind, v]
+
+
+def gen_ops(rng, spec, nops, save_modes, p_save=0.12, structures=("package",), sub_edits=0.0):
+    """ops over a *copy* of spec that tracks what exists, so most ops are meaningful; `sub_edits` = share of
+    operations that edit one object below a glyph (C01/C06: the dirty flags of those objects are compared)"""
     sh = copy.deepcopy(spec)
     ops = []
     last_img = dict(spec["images"])
@@ -34,6 +66,10 @@ def gen_ops(rng, spec, nops, save_modes, p_save=0.12, structures=("package",)):
                 return l
 
     for _ in range(nops):
+        if sub_edits and rng.random() < sub_edits:
+            ln = rng.choice(layers())
+            ops.append(gen_sub_edit(rng, ln, sorted(layer(ln)["glyphs"])))
+            continue
         r = rng.random()
         ln = rng.choice(layers())
         L = layer(ln)
@@ -202,6 +238,42 @@ EMPTY_GLYPH = {"unicodes": [], "width": 0, "height": 0, "note": None, "lib": {},
                "components": [], "anchors": [], "guidelines": []}
 
 
+SUB_FIELDS = ("contourmove", "addpoint", "compmove", "compbase", "anchorset", "guideset", "imgcolor", "imgset")
+ANCHOR_FIELD = {"x": 0, "y": 1, "name": 2}
+GUIDE_FIELD = {"name": 3, "color": 4}
+
+
+def shadow_sub_edit(gl, f, v):
+    """the content after an edit of one object below the glyph (see gen_sub_edit)"""
+    if f == "contourmove":
+        if gl["contours"]:
+            for p in gl["contours"][v[0] % len(gl["contours"])]["points"]:
+                p[0] += v[1]
+                p[1] += v[2]
+    elif f == "addpoint":
+        if gl["contours"]:
+            gl["contours"][v[0] % len(gl["contours"])]["points"].append([v[1], v[2], "line", False, None, None])
+    elif f == "compmove":
+        if gl["components"]:
+            c = gl["components"][v[0] % len(gl["components"])]
+            c[1][4] += v[1]
+            c[1][5] += v[2]
+    elif f == "compbase":
+        if gl["components"]:
+            gl["components"][v[0] % len(gl["components"])][0] = v[1]
+    elif f == "anchorset":
+        if gl["anchors"]:
+            gl["anchors"][v[0] % len(gl["anchors"])][ANCHOR_FIELD[v[1]]] = v[2]
+    elif f == "guideset":
+        if gl["guidelines"]:
+            gl["guidelines"][v[0] % len(gl["guidelines"])][GUIDE_FIELD[v[1]]] = v[2]
+    elif f == "imgcolor":
+        if gl["image"] is not None:
+            gl["image"]["color"] = v
+    elif f == "imgset":
+        gl["image"] = copy.deepcopy(v)
+
+
 class Shadow(object):
     def __init__(self, spec):
         self.s = copy.deepcopy(spec)
@@ -265,6 +337,8 @@ class Shadow(object):
                     gl["anchors"] = []
                 elif f == "clearcomps":
                     gl["components"] = []
+                elif f in SUB_FIELDS:
+                    shadow_sub_edit(gl, f, v)
                 elif f == "move":
                     dx, dy = v
                     for c in gl["contours"]:
@@ -547,6 +621,36 @@ class Impl(object):
                         g.clearAnchors()
                     elif f == "clearcomps":
                         g.clearComponents()
+                    elif f == "contourmove":
+                        if len(g):
+                            g[v[0] % len(g)].move((v[1], v[2]))
+                    elif f == "addpoint":
+                        if len(g):
+                            g[v[0] % len(g)].addPoint((v[1], v[2]), segmentType="line")
+                    elif f == "compmove":
+                        if g.components:
+                            g.components[v[0] % len(g.components)].move((v[1], v[2]))
+                    elif f == "compbase":
+                        if g.components:
+                            g.components[v[0] % len(g.components)].baseGlyph = v[1]
+                    elif f == "anchorset":
+                        if g.anchors:
+                            setattr(g.anchors[v[0] % len(g.anchors)], v[1], v[2])
+                    elif f == "guideset":
+                        if g.guidelines:
+                            setattr(g.guidelines[v[0] % len(g.guidelines)], v[1], v[2])
+                    elif f == "imgcolor":
+                        im = g.image
+                        if im.fileName is not None:
+                            im.color = v
+                    elif f == "imgset":
+                        if v is None:
+                            g.image = None
+                        else:
+                            g.image = dict(fileName=v["fileName"], xScale=1, xyScale=0, yxScale=0, yScale=1,
+                                           xOffset=v["xOffset"], yOffset=0, color=v["color"])
+                    else:
+                        raise ValueError(op)
             elif k == "lnew":
                 self.keep.append(font.newLayer(op[1]))
             elif k == "ldel":
@@ -741,7 +845,12 @@ def check_saved(impl, shadow, prop, step, op, deep, second_save):
             return viol
         if second_save:
             before = tree_digest(path)
-            impl.font.save()
+            try:
+                impl.font.save()
+            except Exception as e:
+                viol.append(dict(clause="C06/second-save-raised", signature="C06/second-save-raised/%s" % type(e).__name__,
+                                 step=step, op=op, error=str(e)[:300]))
+                return viol
             after = tree_digest(path)
             if before != after:
                 ch = sorted(k for k in set(before) | set(after) if before.get(k) != after.get(k))
@@ -807,6 +916,9 @@ def run_case(case, prop):
                 stats["f31_after_load"] = len(known_only)
                 carry = known_only
         carry = locals().get("carry", [])
+        # "whenever the font is not dirty its UFO on disk equals memory": `persisted` is the content the UFO at the font's
+        # path was last SEEN to hold (the UFO the font was opened from; after a save that passed the read-back oracle)
+        persisted = strip_order(fg.expected_dump(shadow.s)) if case.get("origin", "disk") == "disk" else None
         for i, op in enumerate(case["ops"]):
             was_dirty = bool(impl.font.dirty)
             try:
@@ -833,6 +945,8 @@ def run_case(case, prop):
                     continue
                 nsaves += 1
                 viol.extend(check_saved(impl, shadow, prop, i, op, deep=(nsaves % 2 == 1), second_save=(nsaves % 2 == 0)))
+                if not viol:
+                    persisted = strip_order(fg.expected_dump(shadow.s))
                 continue
             if (status == "ok") != bool(ok_expected):
                 viol.append(dict(clause="%s/op-outcome" % prop, signature="%s/op-outcome/%s" % (prop, op[0]), step=i, op=op,
@@ -840,6 +954,13 @@ def run_case(case, prop):
             elif flag_dropped:
                 stats["flag_dropped_outside_save"] = stats.get("flag_dropped_outside_save", 0) + 1
                 viol.extend(check_clean_is_persisted(impl, shadow, prop, i, op))
+            elif not impl.font.dirty and status == "ok":
+                # the font says there is nothing to save: then the content must be what the UFO was last seen to hold
+                # (judged against the shadow content, not against what the font reports about itself)
+                stats["clean_after_op"] = stats.get("clean_after_op", 0) + 1
+                if persisted is None or strip_order(fg.expected_dump(shadow.s)) != persisted:
+                    stats["clean_after_change"] = stats.get("clean_after_change", 0) + 1
+                    viol.extend(check_clean_is_persisted(impl, shadow, prop, i, op))
         if not viol:
             # memory must equal the content too (reads every lazily loaded part now)
             was_dirty = bool(impl.font.dirty)
@@ -909,7 +1030,108 @@ def scenario(rng, spec):
     return []
 
 
-def gen_case(rng, tier, save_modes, structures=("package", "zip"), maxops=None, p_save=0.12):
+def _edit_everywhere(spec_layers):
+    """one cheap content edit in every layer that holds a glyph, and a new glyph in every layer"""
+    ops = []
+    for l in spec_layers:
+        for gn in sorted(l["glyphs"])[:1]:
+            ops.append(["gfield", l["name"], gn, "width", 901])
+        ops.append(["gnew", l["name"], "space"])
+    return ops
+
+
+def neighbourhood(case, step, rng):
+    """histories around a step at which model and code parted: the history up to (and including) that step, followed
+    by what the property speaks about — an in-place save (whose read-back, orphan, flag and second-save oracles then
+    judge the UFO against the shadow content), the step repeated or undone before the save, further edits and a second
+    in-place save, a complete save in between.  Everything is judged by the direct oracles of run_case."""
+    ops = case["ops"]
+    n_setup = len(model_lines(case)) - len(ops)
+    j = max(0, min(len(ops) - 1, step - n_setup))
+    structure = case.get("structure", "package")
+    save = ["save", "inplace", structure]
+    save_new = ["save", "new", structure]
+    sh = Shadow(case["spec"])
+    for o in ops[:j + 1]:
+        if o[0] != "save":
+            sh.do(o)
+    layers_now = sh.s["layers"]
+    edits = _edit_everywhere(layers_now)
+    op = ops[j]
+    k = op[0]
+    undo = []
+    if k == "img":
+        undo = [[["img", op[1], None]], [["img", op[1], 5]], [["img", op[1], 5], ["img", op[1], None]],
+                [["img", op[1], None], ["img", op[1], 5], ["img", op[1], None]]]
+    elif k == "dat":
+        undo = [[["dat", op[1], None]], [["dat", op[1], 5]], [["dat", op[1], 5], ["dat", op[1], None]],
+                [["dat", op[1], None], ["dat", op[1], 5], ["dat", op[1], None]]]
+    elif k == "gdel":
+        undo = [[["gnew", op[1], op[2]]], [["gnew", op[1], op[2]], ["gdel", op[1], op[2]]]]
+    elif k in ("gnew", "ginsert"):
+        undo = [[["gdel", op[1], op[2]]], [["gdel", op[1], op[2]], ["gnew", op[1], op[2]]]]
+    elif k == "grename":
+        undo = [[["grename", op[1], op[3], op[2]]], [["gnew", op[1], op[2]]]]
+    elif k == "lrename":
+        undo = [[["lrename", op[2], op[1]]], [["lnew", op[1]]], [["lnew", op[1]], ["ldel", op[1]], ["lrename", op[2], op[1]]]]
+    elif k == "ldel":
+        undo = [[["lnew", op[1]], ["gnew", op[1], "A"]]]
+    elif k == "lnew":
+        undo = [[["ldel", op[1]]], [["ldel", op[1]], ["lnew", op[1]]]]
+    seen = set()
+
+    def emit(new_ops):
+        key = _json.dumps(new_ops, sort_keys=True, default=str)
+        if key in seen or new_ops == ops:
+            return None
+        seen.add(key)
+        return dict(case, ops=new_ops)
+
+    base = ops[:j + 1]
+    # histories that make the NEXT in-place save replay a non-trivial layer action history (rename away and back around
+    # a short-lived namesake; delete and re-create under the same name before a complete save; …)
+    layer_stress = []
+    names = [l["name"] for l in layers_now]
+    free = [n for n in fg.LAYER_NAMES if n not in names]
+    others = sorted([l for l in layers_now if l["name"] != sh.s["default"]], key=lambda l: -len(l["glyphs"]))
+    for l in others[:2]:
+        x = l["name"]
+        if free:
+            y = free[0]
+            layer_stress.append([["lrename", x, y], ["lnew", x], ["ldel", x], ["lrename", y, x], save])
+        layer_stress.append([["ldel", x], ["lnew", x], ["gnew", x, "A"], save_new] + edits + [save])
+        if free:
+            layer_stress.append([["lrename", x, free[0]], ["lnew", x], ["gnew", x, "A"], save_new] + edits + [save])
+    if free:
+        d = sh.s["default"]
+        layer_stress.append([["lrename", d, free[0]], save] + edits + [save])
+    undone = [u + [save] for u in undo] + [u + [save_new] + edits + [save] for u in undo]
+    generic = [[save], [save, save]]
+    generic.append([op, save] if k != "save" else edits + [save])
+    generic += [edits + [save], [save] + edits + [save], [save_new] + edits + [save], edits + [save_new] + edits + [save]]
+    generic += [[save] + u + [save] for u in undo]
+    if k.startswith("l") or k == "save":
+        tails = layer_stress[:3] + undone + generic[:1] + layer_stress[3:] + generic[1:]
+    else:
+        tails = generic[:1] + undone + generic[1:] + layer_stress
+    cands = [base + t for t in tails]
+    # the rest of the original history, then the same endings
+    cands += [ops + [save], ops + edits + [save], ops + [save_new] + edits + [save]]
+    n = 0
+    for c in cands:
+        v = emit(c)
+        if v is not None:
+            n += 1
+            yield v
+            if n >= 14:          # leave some of the search budget to the other diverging histories
+                break
+    # every unread glyph stays unread: the save paths that skip clean glyphs are the interesting ones
+    if case.get("preread_glyphs") or case.get("preread"):
+        for c in cands[:4]:
+            yield dict(case, ops=c, preread=[], preread_glyphs=[])
+
+
+def gen_case(rng, tier, save_modes, structures=("package", "zip"), maxops=None, p_save=0.12, sub_edits=0.0):
     spec = fg.gen_font(rng)
     structure = rng.choice(structures)
     origin = "memory" if rng.random() < 0.2 else "disk"
@@ -925,7 +1147,7 @@ def gen_case(rng, tier, save_modes, structures=("package", "zip"), maxops=None, 
             for o in sc:
                 sh0.do(o)
             start = sh0.s
-    ops = pre + gen_ops(rng, start, nops, save_modes, p_save=p_save, structures=structures)
+    ops = pre + gen_ops(rng, start, nops, save_modes, p_save=p_save, structures=structures, sub_edits=sub_edits)
     if not any(o[0] == "save" for o in ops):
         ops.append(["save", rng.choice(save_modes), structure])
     if origin == "memory" :
@@ -976,6 +1198,137 @@ def part_value(spec, part):
 PART_OF_OP = {"info": "info", "fguide": "info", "fguideattr": "info", "kern": "kerning", "group": "groups", "feat": "features", "lib": "lib"}
 
 
+# --- what an operation does to the flags below a glyph, as `SubFlags.Prim`s (computed from the shadow content alone) ---
+
+K_CONTOUR, K_COMPONENT, K_ANCHOR, K_GUIDELINE = Atom("contour"), Atom("component"), Atom("anchor"), Atom("guideline")
+TOUCH, IMGGET, IMGCLEAR, LIBEDIT = Atom("touch"), Atom("imgget"), Atom("imgclear"), Atom("libedit")
+
+
+def imgedit(image):
+    """an effective change of the image object; afterwards it holds the file name of `image`"""
+    return [Atom("imgedit"), opt(image["fileName"] if image is not None else None)]
+
+
+def shape_of(g):
+    """what the glyph's GLIF holds: number of contours, the base glyph of each component, numbers of anchors and
+    guidelines, the file name of the image element"""
+    return [len(g["contours"]), [c[0] for c in g["components"]], len(g["anchors"]), len(g["guidelines"]),
+            opt(g["image"]["fileName"] if g["image"] is not None else None)]
+
+
+def _dict_flag(values):
+    """the flag an anchor / guideline built from a dict arrives with: its guarded setters ran on every given value"""
+    return any(v is not None for v in values)
+
+
+def assign_prims(old, new):
+    """fontgen.apply_gspec(glyph, new) on a glyph whose content is `old`"""
+    ps = []
+    for f in ("width", "height", "unicodes", "note"):
+        if old[f] != new[f]:
+            ps.append(TOUCH)
+    ps.append(LIBEDIT)                                   # glyph.lib = …: `update` always flags the lib
+    ps.append([Atom("clear"), K_CONTOUR])
+    ps.append([Atom("clear"), K_COMPONENT])
+    for _ in new["contours"]:
+        ps.append([Atom("append"), K_CONTOUR, False])    # the pen's endPath clears the flag of the contour it built
+    for _ in new["components"]:
+        ps.append([Atom("append"), K_COMPONENT, True])   # built through the component's setters
+    ps.append([Atom("clear"), K_ANCHOR])
+    for a in new["anchors"]:
+        ps.append([Atom("append"), K_ANCHOR, _dict_flag(a)])
+    ps.append([Atom("clear"), K_GUIDELINE])
+    for gl in new["guidelines"]:
+        ps.append([Atom("append"), K_GUIDELINE, _dict_flag(gl)])
+    if new["image"] is None:
+        ps.append(IMGCLEAR)
+    else:
+        ps.append(IMGGET)
+        if old["image"] != new["image"]:
+            ps.append(imgedit(new["image"]))
+    return ps
+
+
+def copy_prims(src):
+    """Glyph.copyDataFromGlyph(source) on a glyph Layer.newGlyph has just made"""
+    ps = []
+    for f in ("width", "height", "unicodes", "note"):
+        if EMPTY_GLYPH[f] != src[f]:
+            ps.append(TOUCH)
+    ps.append([Atom("clear"), K_GUIDELINE])
+    for gl in src["guidelines"]:
+        ps.append([Atom("append"), K_GUIDELINE, True])
+    ps.append([Atom("clear"), K_ANCHOR])
+    for a in src["anchors"]:
+        ps.append([Atom("append"), K_ANCHOR, True])
+    ps.append(IMGGET)
+    if src["image"] is not None:
+        ps.append(imgedit(src["image"]))
+    for _ in src["contours"]:
+        ps.append([Atom("append"), K_CONTOUR, False])
+    for _ in src["components"]:
+        ps.append([Atom("append"), K_COMPONENT, True])
+    ps.append(LIBEDIT)
+    return ps
+
+
+def field_prims(old, f, v):
+    """one `gfield` op on a glyph whose content is `old`"""
+    if f in ("width", "unicodes", "note"):
+        return [TOUCH] if old[f] != v else []
+    if f == "libkey":
+        if v[1] is None:
+            return [LIBEDIT] if v[0] in old["lib"] else []
+        return [] if (v[0] in old["lib"] and old["lib"][v[0]] == v[1]) else [LIBEDIT]
+    if f == "move":
+        ps = [[Atom("editall"), K_CONTOUR]]              # Contour.move is not guarded
+        if v[0] or v[1]:
+            ps += [[Atom("editall"), K_COMPONENT], [Atom("editall"), K_ANCHOR]]
+        return ps
+    if f == "inscontour":
+        return [[Atom("insert"), K_CONTOUR, 0, True]] if v[0] == "first" else [[Atom("append"), K_CONTOUR, True]]
+    if f == "addanchor":
+        return [[Atom("append"), K_ANCHOR, _dict_flag(v)]]
+    if f == "addguide":
+        return [[Atom("append"), K_GUIDELINE, _dict_flag(v)]]
+    if f == "clearanchors":
+        return [[Atom("clear"), K_ANCHOR]]
+    if f == "clearcomps":
+        return [[Atom("clear"), K_COMPONENT]]
+    if f in ("contourmove", "addpoint"):
+        n = len(old["contours"])
+        return [[Atom("edit"), K_CONTOUR, v[0] % n]] if n else []
+    if f == "compmove":
+        n = len(old["components"])
+        return [[Atom("edit"), K_COMPONENT, v[0] % n]] if n and (v[1] or v[2]) else []
+    if f == "compbase":
+        n = len(old["components"])
+        return [[Atom("edit"), K_COMPONENT, v[0] % n]] if n and old["components"][v[0] % n][0] != v[1] else []
+    if f == "anchorset":
+        n = len(old["anchors"])
+        return [[Atom("edit"), K_ANCHOR, v[0] % n]] if n and old["anchors"][v[0] % n][ANCHOR_FIELD[v[1]]] != v[2] else []
+    if f == "guideset":
+        n = len(old["guidelines"])
+        return [[Atom("edit"), K_GUIDELINE, v[0] % n]] if n and old["guidelines"][v[0] % n][GUIDE_FIELD[v[1]]] != v[2] else []
+    if f == "imgcolor":
+        ps = [IMGGET]
+        if old["image"] is not None and old["image"]["color"] != v:
+            ps.append(imgedit(old["image"]))
+        return ps
+    if f == "imgset":
+        if v is None:
+            return [IMGCLEAR]
+        return [IMGGET] + ([imgedit(v)] if old["image"] != v else [])
+    raise ValueError(f)
+
+
+def bases_given(old, f, v):
+    """the base glyph names handed to components by a `gfield` op (the component starts to observe that glyph)"""
+    if f == "compbase" and old["components"] and old["components"][v[0] % len(old["components"])][0] != v[1]:
+        return [v[1]]
+    return []
+
+
 def model_lines(case):
     """the same history, abstracted to what the persistence models see"""
     blobs = Blobs()
@@ -992,6 +1345,12 @@ def model_lines(case):
                 first = False
             else:
                 lines.append(q([Atom("lnew"), l["name"]]))
+            if l["color"] is not None:
+                lines.append(q([Atom("ltouch"), l["name"]]))
+            lines.append(q([Atom("llibedit"), l["name"]]))           # layer.lib.update(…) always flags the lib
+            for gn, g in l["glyphs"].items():
+                lines.append(q([Atom("gnew"), l["name"], gn]))
+                lines.append(q([Atom("gedit"), l["name"], gn, assign_prims(EMPTY_GLYPH, g), [c[0] for c in g["components"]]]))
         lines.append(q([Atom("ldefault"), spec["default"]]))
         lines.append(q([Atom("pset"), Atom("info"), blobs.of(part_value(spec, "info"))]))
         for part in ("kerning", "groups", "features", "lib"):
@@ -1007,12 +1366,31 @@ def model_lines(case):
         lines.append([Atom("init"), [[n, sd] for n, sd in spec["images"].items()],
                       [[n, 100 + sd] for n, sd in spec["data"].items()],
                       [[p, blobs.of(part_value(spec, p))] for p in ("info", "groups", "kerning", "features", "lib")],
-                      [[n, i] for i, n in enumerate(names)], names.index(spec["default"]), spec["default"]])
+                      [[n, i] for i, n in enumerate(names)], names.index(spec["default"]), spec["default"],
+                      [[i, [[gn, shape_of(g)] for gn, g in l["glyphs"].items()]] for i, l in enumerate(spec["layers"])]])
     for part in case.get("preread", []):
         lines.append(q([Atom("ptouch"), Atom(part)]))
+    for ln, gn in case.get("preread_glyphs", []):
+        lines.append(q([Atom("gget"), ln, gn]))
     for op in case["ops"]:
         k = op[0]
+        old = None
+        if k in ("gget", "gread", "gdel", "grename", "gset", "gfield"):
+            L0 = sh.layer(op[1])
+            old = copy.deepcopy(L0["glyphs"].get(op[2])) if L0 is not None else None
+        lchanged = False
+        if k == "lcolor":
+            lchanged = sh.layer(op[1])["color"] != op[2]
+        elif k == "llib":
+            lib0 = sh.layer(op[1])["lib"]
+            lchanged = (op[2] in lib0) if op[3] is None else (op[2] not in lib0 or lib0[op[2]] != op[3])
+        elif k == "fguideattr":
+            # the guideline's setters are guarded: assigning the value it holds changes nothing and flags nothing
+            gls0 = sh.s.get("guidelines") or []
+            lchanged = op[1] < len(gls0) and gls0[op[1]][1 if op[2] == "y" else 3] != op[3]
         ok = sh.do(op) if k != "save" else True
+        if k == "fguideattr" and not lchanged:
+            ok = False
         if k in PART_OF_OP:
             part = PART_OF_OP[k]
             ln = [Atom("pquiet" if k == "fguideattr" else "pset"), Atom(part), blobs.of(part_value(sh.s, part))] if ok else [Atom("ptouch"), Atom(part)]
@@ -1037,8 +1415,28 @@ def model_lines(case):
             lines.append([Atom("ldefault"), op[1]])
         elif k == "lorder":
             lines.append([Atom("lorder"), list(op[1])])
+        elif k == "lcolor":
+            lines.append([Atom("ltouch"), op[1]] if lchanged else [Atom("noop")])
+        elif k == "llib":
+            lines.append([Atom("llibedit"), op[1]] if lchanged else [Atom("noop")])
+        elif k in ("gget", "gread"):
+            lines.append([Atom("gget"), op[1], op[2]])
+        elif k == "gnew":
+            lines.append([Atom("gnew"), op[1], op[2]])
+        elif k == "ginsert":
+            lines.append([Atom("ginsert"), op[1], op[2], copy_prims(op[3]), [c[0] for c in op[3]["components"]]])
+        elif k == "gdel":
+            lines.append([Atom("gdel"), op[1], op[2]])
+        elif k == "grename":
+            lines.append([Atom("grename"), op[1], op[2], op[3]])
+        elif k == "gset":
+            lines.append([Atom("gedit"), op[1], op[2], assign_prims(old, op[3]) if old is not None else [],
+                          [c[0] for c in op[3]["components"]] if old is not None else []])
+        elif k == "gfield":
+            lines.append([Atom("gedit"), op[1], op[2], field_prims(old, op[3], op[4]) if old is not None else [],
+                          bases_given(old, op[3], op[4]) if old is not None else []])
         elif k == "save":
-            lines.append([Atom("save"), Atom("SAVEMODE")])      # patched below
+            lines.append([Atom("save"), Atom("SAVEMODE")])      # mode patched below
         else:
             lines.append([Atom("noop")])
     # a save is in place iff the font has a path by then and the mode says so
@@ -1096,8 +1494,40 @@ def disk_snapshot(impl, blobs):
             [Atom("layercontents"), [[n, d == "glyphs"] for n, d in lc]], flags]
 
 
+def sub_flags(g):
+    """the flags of what a glyph holds; contours that are still in their shallow form are no objects yet"""
+    if g._shallowLoadedContours is not None:
+        cont = [False] * len(g._shallowLoadedContours)
+    else:
+        cont = [bool(c.dirty) for c in g._contours]
+    return [cont, [bool(c.dirty) for c in g._components], [bool(a.dirty) for a in g._anchors],
+            [bool(x.dirty) for x in g._guidelines], opt(None if g._image is None else bool(g._image.dirty)),
+            bool(g._lib is not None and g._lib.dirty)]
+
+
+def flags_snapshot(font):
+    """the dirty flag of every object of the tree, as the persist driver prints it (`encFlags`)"""
+    layers = []
+    for ln in font.layers.layerOrder:
+        layer = font.layers[ln]
+        glyphs = [Atom("set")]
+        for gn, g in layer._glyphs.items():
+            sf = sub_flags(g)
+            if g.dirty or any(sf[0]) or any(sf[1]) or any(sf[2]) or any(sf[3]) or (g._image is not None and g._image.dirty) or sf[5]:
+                glyphs.append([gn, bool(g.dirty)] + sf)
+        layers.append([ln, bool(layer.dirty), bool(layer._lib is not None and layer._lib.dirty), glyphs])
+    return [Atom("flags"), bool(font.dirty), bool(font.layers.dirty), [part_flags(font, p)[1] for p in ("info", "groups", "kerning", "features")],
+            bool(font.images.dirty), bool(font.data.dirty), layers]
+
+
 def model_out(impl, op, status, blobs, ok_expected):
     """what the persist driver prints for this op, computed from the real font"""
+    if (op[0] in PART_OF_OP and PART_OF_OP[op[0]] == "lib") or (op[0] == "touch" and op[1] == "lib"):
+        return Atom("ok")          # the font lib also holds public.glyphOrder (C12): its lines are `quiet`
+    return [Atom("out"), component_out(impl, op, status, blobs), flags_snapshot(impl.font)]
+
+
+def component_out(impl, op, status, blobs):
     k = op[0]
     font = impl.font
     st = Atom("ok") if status == "ok" else [Atom("err"), Atom(status.split(":")[1])]
@@ -1116,4 +1546,6 @@ def model_out(impl, op, status, blobs, ok_expected):
         if status != "ok":
             return [st]
         return [Atom("ok"), disk_snapshot(impl, blobs)]
-    return Atom("ok")
+    if k in ("lcolor", "llib"):
+        return Atom("ok")
+    return st
